@@ -11,6 +11,7 @@ import (
 	"sync"
 	"sync/atomic"
 	"time"
+	"unicode/utf8"
 
 	"nhooyr.io/websocket"
 	"verif/harness/fw"
@@ -146,7 +147,9 @@ func c06Gen(tier string, seed int64) []fw.Case {
 		}
 		// (D) after closed
 		for _, closer := range []string{"Close", "CloseNow", "peer-close", "protocol-error", "context-expiry", "transport-eof"} {
-			add(c06Desc{Kind: "after-closed", Role: role, Closer: closer}, fmt.Sprintf("after-closed/%s/%s", role, closer))
+			for rep := 0; rep < 8; rep++ {
+				add(c06Desc{Kind: "after-closed", Role: role, Closer: closer}, fmt.Sprintf("after-closed/%s/%s", role, closer))
+			}
 		}
 		var orders []string
 		var gen func(prefix string, n int)
@@ -184,6 +187,19 @@ func reasonOf(n int, code int) string {
 		sb.WriteByte(byte('a' + (i+code)%26))
 	}
 	return sb.String()
+}
+
+// reasonOfSender is reasonOf for closes that the LIBRARY sends: one in seven is a byte string that is no
+// valid UTF-8 (a text cut in the middle of a character at the 123 byte bound, or plain binary). Close takes a Go
+// string of at most 123 bytes and puts exactly those bytes on the wire; the other library endpoint reports them.
+func reasonOfSender(n int, code int) string {
+	if code%7 == 3 && n >= 1 {
+		if code%2 == 0 {
+			return reasonOf(n-1, code+1)[:n-1] + "\xc3"
+		}
+		return strings.Repeat("\xff", n)
+	}
+	return reasonOf(n, code)
 }
 
 func rlClass(n int) string {
@@ -317,7 +333,10 @@ func c06Local(r *fw.R, d c06Desc, code, rl int) {
 		r.Key("local/%s/in-flight=%s", d.Role, inFlight)
 	}
 	peer.Start()
-	reason := reasonOf(rl, code)
+	reason := reasonOfSender(rl, code)
+	if !utf8.ValidString(reason) {
+		r.Count("closes_sent_with_a_reason_that_is_not_utf8", 1)
+	}
 	t0 := time.Now()
 	cerr := c.Close(websocket.StatusCode(code), reason)
 	el := time.Since(t0)
@@ -582,9 +601,12 @@ func c06LibPair(r *fw.R, d c06Desc, code, rl int) {
 	} else {
 		closer, other = sv, cl
 	}
-	reason := reasonOf(rl, code)
+	reason := reasonOfSender(rl, code)
 	if code == 1005 {
 		reason = ""
+	}
+	if !utf8.ValidString(reason) {
+		r.Count("closes_sent_with_a_reason_that_is_not_utf8", 1)
 	}
 	what := fmt.Sprintf("lib<->lib %s closes (%d, %d byte reason) %s", d.Role, code, rl, d.Place)
 	r.Key("libpair/%s/code=%s/reason=%s/%s", d.Role, codeClass2(code), rlClass(rl), d.Place)
@@ -870,7 +892,19 @@ func c06AfterClosed(r *fw.R, d c06Desc) {
 	}
 	c06PostCloseNoClose(r, c, what)
 	// Close/CloseNow after any of these: the first may do anything, later ones must match net.ErrClosed
-	c.Close(websocket.StatusNormalClosure, "")
+	if d.Closer != "Close" && d.Closer != "CloseNow" && d.Seed%2 == 0 {
+		// ... except that arguments which cannot be sent are an error whatever state the connection is in
+		code, reason := websocket.StatusCode([]int{1006, 1015, 999, 5000, 1004, 2999}[d.Seed/2%6]), ""
+		if d.Seed/2%3 == 0 {
+			code, reason = websocket.StatusNormalClosure, strings.Repeat("r", 124+int(d.Seed/6%3))
+		}
+		if err := c.Close(code, reason); err == nil {
+			r.Violate("C06/unsendable-close-no-error/on-a-closed-connection", fmt.Sprintf("%s: the first Close call, made with the unsendable arguments (%d, %d byte reason), returned nil", what, code, len(reason)), "")
+		}
+		r.Count("unsendable_closes_on_a_closed_connection", 1)
+	} else {
+		c.Close(websocket.StatusNormalClosure, "")
+	}
 	if err := c.Close(websocket.StatusNormalClosure, ""); !errors.Is(err, net.ErrClosed) {
 		r.Violate("C06/later-close-not-errclosed", fmt.Sprintf("%s: second Close returned %v", what, err), "")
 	}
